@@ -433,6 +433,13 @@ func (gb *gcpBalancer) getSubConnRoundRobin(ctx context.Context) *subConnRef {
 	return scRef
 }
 
+// subConnOf returns the current SubConn of the subConnRef (a refresh may replace it).
+func (gb *gcpBalancer) subConnOf(ref *subConnRef) balancer.SubConn {
+	gb.mu.RLock()
+	defer gb.mu.RUnlock()
+	return ref.subConn
+}
+
 // bindSubConn binds the given affinity key to an existing subConnRef.
 func (gb *gcpBalancer) bindSubConn(bindKey string, sc balancer.SubConn) {
 	gb.mu.Lock()
